@@ -138,9 +138,15 @@ Layout(l) ==
   CASE l = 1 -> << Range(0, 8) >>
     [] l = 2 -> << Range(0, 6), Range(0, 6), Range(0, 6) >>
     [] l = 3 -> << Range(0, 8), [i \in 1..9 |-> Q(2 * i - 1, 2)] >>     \* the traces cover different ranges: 0..8, 1/2..17/2
-    [] l = 4 -> << Range(2, 12), Range(2, 12) >>
-LayA(l) == IF l = 4 THEN 2 ELSE 0
-LayB(l) == CASE l = 1 -> 8 [] l = 2 -> 6 [] l = 3 -> 8 [] l = 4 -> 12
+    [] l = 4 -> << Range(2, 12), Range(2, 12) >>                          \* does not start at 0
+    [] l = 5 -> << Range(-8, -2), Range(-8, -2) >>                        \* all positions negative
+LayA(l) == CASE l = 4 -> 2 [] l = 5 -> -8 [] OTHER -> 0
+LayB(l) == CASE l = 1 -> 8 [] l = 2 -> 6 [] l = 3 -> 8 [] l = 4 -> 12 [] l = 5 -> -2
+(* the limits: 1 neither supplied; 2 both, one beyond the data on each side; 3 both, not integers; and the     *)
+(* zero-valued ones, placed so that 0 is NOT what the positions would give: 4 xmin = 0 only (data start above *)
+(* 0); 5 xmax = 0 only (data all negative); 6 xmin = 0 and xmax both; 7 xmin and xmax = 0 both                *)
+MinMaxOK(mm, l) == CASE mm \in {4, 6} -> LayA(l) > 0 [] mm \in {5, 7} -> LayB(l) < 0 [] OTHER -> TRUE
+NMinMax == 7
 (* jump kinds: none; narrow inside; wide inside with a negative value; wholly below the     *)
 (* data; wholly above; straddling the upper end; 7-11: zero / negative / edge parameters    *)
 Jump(jk, l) ==
@@ -173,9 +179,9 @@ TsCase(b, nc, l, ci, jk, mm, wv, nz) ==
       nt == Len(xpos)
       a == LayA(l)  bb == LayB(l)
       t0 == [kind |-> "tset", basis |-> b, nc |-> nc, xpos |-> xpos, jump |-> Jump(jk, l),
-             given |-> mm > 1,
-             xmin |-> CASE mm = 1 -> Zero [] mm = 2 -> I(a - 1) [] mm = 3 -> Q(2 * a - 1, 2),
-             xmax |-> CASE mm = 1 -> Zero [] mm = 2 -> I(bb + 1) [] mm = 3 -> Q(4 * bb + 1, 4)]
+             gmin |-> mm \in {2, 3, 4, 6, 7}, gmax |-> mm \in {2, 3, 5, 6, 7},
+             xmin |-> CASE mm = 2 -> I(a - 1) [] mm = 3 -> Q(2 * a - 1, 2) [] mm = 7 -> I(a - 1) [] OTHER -> Zero,
+             xmax |-> CASE mm = 2 -> I(bb + 1) [] mm = 3 -> Q(4 * bb + 1, 4) [] mm = 6 -> I(bb + 1) [] OTHER -> Zero]
       co == [k \in 1..nt |-> TsCoef(ci, k, nc)]
       Z == TsZero(wv, l)
       clean == TsEval(t0, co, xpos, t0.jump)
@@ -197,10 +203,12 @@ TsExpected(t) ==
 TsSeed(b, nc, l) == [kind |-> "seed", fam |-> "tset", basis |-> b, nc |-> nc, lay |-> l]
 TsStep ==
   /\ c.kind = "seed" /\ c.fam = "tset"
-  /\ \E ci \in 1..2 : \E jk \in 1..NJump : \E mm \in 1..3 : \E wv \in 1..4 : \E nz \in 0..1 :
+  /\ \E ci \in 1..2 : \E jk \in 1..NJump : \E mm \in 1..NMinMax : \E wv \in 1..4 : \E nz \in 0..1 :
+       /\ MinMaxOK(mm, c.lay)
        /\ (nz = 1) => (jk = 1 /\ mm = 1 /\ c.lay \in {1, 2} /\ c.nc <= 3)
-       \* (the sample always contains each of the jump kinds 7-11 once per seed: first coefficients, default limits, unit weights)
+       \* (the sample always contains each of the jump kinds 7-11 and each of the limit kinds 4-7 per seed: first coefficients, default limits, unit weights)
        /\ ((3 * ci + 5 * jk + 7 * mm + 11 * wv + 13 * c.nc) % TsMod = 0) \/ nz = 1 \/ (jk >= 7 /\ ci = 1 /\ mm = 1 /\ wv = 1)
+                                                                            \/ (mm >= 4 /\ ci = 1 /\ jk \in {1, 2} /\ wv = 1)
        /\ LET t == TsCase(c.basis, c.nc, c.lay, ci, jk, mm, wv, nz) IN
           /\ \A k \in 1..Len(t.xpos) : WellPosed(TsProblem(t, k))
           /\ c' = t
